@@ -304,4 +304,145 @@ def pipeline (r : RuleResults) : Except Stage (Nat × Nat) :=
       | v => .error (.time v)
   | v => .error (.nonContextual v)
 
+/-! ## Tx-pool admission (`tx-pool/src/process.rs` `process_tx` / `_process_tx` / `test_accept_tx`,
+`tx-pool/src/util.rs` `check_txid_collision`, `check_tx_fee`, `verify_rtx`) -/
+
+/-- `FeeRate::fee`: `self.0.saturating_mul(weight) / KW` -/
+def feeRateFee (rate weight : Nat) : Nat := Since.satMul rate weight / FEE_RATE_KW
+
+/-- `check_tx_fee`: `none` = the DAO fee computation failed (`Reject::Malformed`), `some (Except.error
+(minFee, fee))` = `Reject::LowFeeRate`, `some (.ok fee)` = passed -/
+def checkTxFee (minFeeRate size : Nat) (fee : Option Nat) : Option (Except (Nat × Nat) Nat) :=
+  match fee with
+  | none => none
+  | some f =>
+    let minFee := feeRateFee minFeeRate size
+    if f < minFee then some (.error (minFee, f)) else some (.ok f)
+
+inductive PoolV where
+  /-- `Completed { cycles, fee }` -/
+  | ok (cycles fee : Nat)
+  /-- `non_contextual_verify` failed (`Reject::Verification`, `ExceededTransactionSizeLimit`, `Malformed("cellbase like")`) -/
+  | nonContextual (v : NcV)
+  /-- `check_txid_collision` -/
+  | duplicated
+  | resolve (e : RErr)
+  /-- `check_tx_fee`: the fee is not defined -/
+  | malformedFee
+  | lowFeeRate (minFee fee : Nat)
+  | time (v : Since.V)
+  | capacity (v : CapV)
+  /-- the scripts need more than `max_cycles` (= the declared cycles of a remote transaction, else
+  `max_block_cycles`) -/
+  | exceededMaximumCycles
+  | script (code : Int)
+  | daoSize (i : Nat)
+  | declaredWrongCycles (declared actual : Nat)
+  deriving Repr, DecidableEq
+
+/-- what the pool looks at for one submitted transaction -/
+structure PoolIn where
+  tx : NcTx
+  txVersion : Nat
+  maxBlockBytes : Nat
+  /-- the pool already holds a transaction with this proposal short id -/
+  inPool : Bool
+  resolve : Option RErr
+  /-- `DaoCalculator::transaction_fee` -/
+  fee : Option Nat
+  minFeeRate : Nat
+  time : Since.V
+  cap : CapV
+  scriptCode : Int
+  /-- cycles the scripts of the transaction consume -/
+  cycles : Nat
+  /-- `Some(declared)` for a transaction relayed by a peer -/
+  declared : Option Nat
+  maxBlockCycles : Nat
+  dao : Option Nat
+  deriving Repr, DecidableEq
+
+/-- `process_tx` up to `submit_entry` (cache miss): `non_contextual_verify`, `pre_check`
+(`check_txid_collision`, `resolve_tx`, `check_tx_fee`), `verify_rtx` with
+`max_cycles = declared.unwrap_or(max_block_cycles)` (time, capacity, scripts; the `FeeCalculator` step
+inside `ContextualTransactionVerifier` repeats the computation `check_tx_fee` already did on the same
+resolved transaction, so it cannot fail here; then `DaoScriptSizeVerifier`), then the declared-cycles
+comparison -/
+def poolAdmit (p : PoolIn) : PoolV :=
+  match poolNonContextual p.txVersion p.maxBlockBytes p.tx with
+  | .ok =>
+    if p.inPool then .duplicated
+    else
+      match p.resolve with
+      | some e => .resolve e
+      | none =>
+        match checkTxFee p.minFeeRate (sizeInBlock p.tx) p.fee with
+        | none => .malformedFee
+        | some (.error (m, f)) => .lowFeeRate m f
+        | some (.ok fee) =>
+          let maxCycles := match p.declared with | some d => d | none => p.maxBlockCycles
+          match p.time with
+          | .ok =>
+            match p.cap with
+            | .ok =>
+              if p.cycles > maxCycles then .exceededMaximumCycles
+              else if p.scriptCode ≠ 0 then .script p.scriptCode
+              else
+                match p.dao with
+                | some i => .daoSize i
+                | none =>
+                  match p.declared with
+                  | some d => if d ≠ p.cycles then .declaredWrongCycles d p.cycles else .ok p.cycles fee
+                  | none => .ok p.cycles fee
+            | v => .capacity v
+          | v => .time v
+  | v => .nonContextual v
+
+/-! ## The DAO witness / header-dep decoding of `transaction_maximum_withdraw` -/
+
+/-- what the witness at the input's position decodes to -/
+inductive DaoWitness where
+  /-- `witnesses().get(i)` is `None` -/
+  | missing
+  /-- not a `WitnessArgs` -/
+  | notWitnessArgs
+  /-- `input_type` absent or not 8 bytes long -/
+  | badInputType
+  /-- `input_type` = little-endian u64 header-dep index -/
+  | index (k : Nat)
+  deriving Repr, DecidableEq
+
+inductive DaoErr where
+  | invalidOutPoint
+  | invalidDaoFormat
+  | invalidHeader
+  deriving Repr, DecidableEq
+
+/-- the header look-ups of one withdrawing input: `infoBlock` = `transaction_info.block_hash` of the
+cell; result = (deposit header, withdrawing header) -/
+def daoHeaders (headerDeps : List Nat) (infoBlock : Option Nat) (w : DaoWitness) : Except DaoErr (Nat × Nat) :=
+  match (match infoBlock with | some b => if b ∈ headerDeps then some b else none | none => none) with
+  | none => .error .invalidOutPoint
+  | some wh =>
+    match w with
+    | .missing => .error .invalidOutPoint
+    | .notWitnessArgs => .error .invalidDaoFormat
+    | .badInputType => .error .invalidDaoFormat
+    | .index k =>
+      match headerDeps[k]? with
+      | none => .error .invalidOutPoint
+      | some dh => .ok (dh, wh)
+
+/-- one withdrawing input through `transaction_maximum_withdraw`: the header look-ups, then
+`calculate_maximum_withdraw` with the two headers' numbers and accumulated rates (`number`, `ar` =
+the header database); a failed `calculate_maximum_withdraw` is `InvalidOutPoint` when the deposit
+block is not below the withdrawing block, else a capacity error (`none`) -/
+def daoWithdraw (hds : List Nat) (number ar : Nat → Nat) (info : Option Nat) (w : DaoWitness)
+    (cap : Nat) (occ : Option Nat) : Except DaoErr (Option Nat) :=
+  match daoHeaders hds info w with
+  | .error e => .error e
+  | .ok (dh, wh) =>
+    if ¬ number dh < number wh then .error .invalidOutPoint
+    else .ok (maxWithdraw cap occ (ar dh) (ar wh) true)
+
 end CkbVerif.TxRules
